@@ -207,11 +207,15 @@ func runC09(r *Run) {
 		waitHandOff := func() {
 			select {
 			case <-hd.sig:
-			case <-time.After(2 * time.Second):
+			case <-time.After(300 * time.Millisecond):
 			}
 		}
 
 		for _, op := range opsIn {
+			if bad != "" {
+				// the property is already violated in this history
+				break
+			}
 			var k int
 			var h, b uint32
 			switch {
@@ -327,6 +331,12 @@ func runC09(r *Run) {
 		maxH = 6 // denser collisions of heights
 	}
 	for c := 0; c < r.N; c++ {
+		if len(r.Violations) >= 20 {
+			// enough concrete failing histories; do not spend the
+			// time budget waiting for hand-offs that never come
+			r.Notes = append(r.Notes, "stopped early after 20 violations")
+			break
+		}
 		var ops []string
 		var best uint32
 		length := 1 + r.Rng.Intn(40)
